@@ -1,4 +1,4 @@
-import PsyVerif.Lemmas.LineLenJoin
+import PsyVerif.Lemmas.LineLenFixed
 /-! # C18 — Line-length limiting keeps the program and respects the limit
 
 Model: `PsyVerif/Model/LineLen.lean` (`process`, `processLine`, `loop`, `findBreak`, `lineType` mirror
@@ -456,5 +456,142 @@ theorem C18_emit_same_program_partial (L : Nat) (ts os : List (List Line))
     simp only [List.map_cons]
     rw [C18_same_program_partial L t o (hsafe t List.mem_cons_self) ho,
       ih os' (fun x hx => hsafe x (List.mem_cons_of_mem _ hx)) hos]
+
+
+/-! ## FIXED mode: the limiter with the repairs `fixes/C18-compound-operator-split.patch`,
+`fixes/C18-unbreakable-fallback.patch`, `fixes/C18-trailing-blank-after-ampersand.patch`
+(`Model/LineLenFixed.lean`: `processF`).  The harness selects `process` or `processF` as the deployed model by
+probing the live class for `_break_point`; the theorems above are about the pinned definitions, the ones below
+about the repaired ones. -/
+
+theorem processLineF_short (L : Nat) (l : Line) (h : l.length ≤ L) : processLineF L l = .ok [l] := by
+  unfold processLineF
+  rw [if_neg (by omega)]
+
+theorem processF_short (L : Nat) (ls : List Line) (h : ∀ l ∈ ls, l.length ≤ L) : processF L ls = .ok ls := by
+  induction ls with
+  | nil => rfl
+  | cons l ls ih =>
+    simp only [processF]
+    rw [processLineF_short L l (h l List.mem_cons_self), ih (fun x hx => h x (List.mem_cons_of_mem _ hx))]
+    rfl
+
+theorem processF_cons_ok (L : Nat) (l : Line) (ls out : List Line) (h : processF L (l :: ls) = .ok out) :
+    ∃ ps qs, processLineF L l = .ok ps ∧ processF L ls = .ok qs ∧ out = ps ++ qs := by
+  simp only [processF] at h
+  split at h
+  · cases h
+  · rename_i ps hps
+    split at h
+    · cases h
+    · rename_i qs hqs
+      cases h
+      exact ⟨ps, qs, hps, hqs, rfl⟩
+
+/-- **No output line is longer than the limit** (repaired code; every text, every limit above `maxAffix = 9`). -/
+theorem C18_fixed_length (L : Nat) (hL : maxAffix < L) (ls out : List Line) (h : processF L ls = .ok out) :
+    ∀ l ∈ out, l.length ≤ L := by
+  rw [maxAffix_eq] at hL
+  induction ls generalizing out with
+  | nil => simp [processF] at h; cases h; simp
+  | cons l ls ih =>
+    obtain ⟨ps, qs, hps, hqs, rfl⟩ := processF_cons_ok L l ls out h
+    intro x hx
+    rcases List.mem_append.mp hx with hx | hx
+    · exact processLineF_length L hL l ps hps x hx
+    · exact ih qs hqs x hx
+
+/-- **Applying the limiter again changes nothing** (repaired code). -/
+theorem C18_fixed_idempotent (L : Nat) (hL : maxAffix < L) (ls out : List Line) (h : processF L ls = .ok out) :
+    processF L out = .ok out :=
+  processF_short L out (C18_fixed_length L hL ls out h)
+
+theorem run_processLineF (L : Nat) (hL : 9 < L) (st : St) (l : Line) (ps : List Line)
+    (h : processLineF L l = .ok ps) (hs : l.length ≤ L ∨ safeLineF st l = true) : run st ps = step st l := by
+  rcases processLineF_shape L hL l ps h with ⟨_, rfl⟩ | ⟨hlong, hrest⟩ | ⟨hlong, hrest⟩
+  · exact run_single st l
+  all_goals
+    have hsafe : safeLineF st l = true := by
+      rcases hs with hs | hs
+      · omega
+      · exact hs
+    have hw : wrapped l = l := by
+      unfold wrapped
+      split
+      · rename_i hcond
+        apply rstrip_of_lastNonWs
+        unfold safeLineF noStrip at hsafe
+        simp only [Bool.and_eq_true, Bool.or_eq_true, beq_iff_eq, Bool.not_eq_true'] at hsafe hcond
+        rcases hsafe.1 with (h1 | h1) | h1
+        · simp [h1] at hcond
+        · rw [h1] at hcond; simp at hcond
+        · exact h1
+      · rfl
+    rw [hw] at hrest
+  · rw [hrest.2, run_single]
+  · rcases hrest.2 with ⟨_, rfl⟩ | hsp | hsp
+    · rw [run_single, step_lstrip]
+    · exact run_splitF L st l l ps (Or.inl rfl) hsp hsafe
+    · exact run_splitF L st l (lstrip l) ps (Or.inr rfl) hsp hsafe
+
+
+theorem run_processF (L : Nat) (hL : 9 < L) (ls : List Line) : ∀ (st : St) (out : List Line),
+    SafeFileF L st ls = true → processF L ls = .ok out → run st out = run st ls := by
+  induction ls with
+  | nil => intro st out _ h; simp [processF] at h; cases h; rfl
+  | cons l ls ih =>
+    intro st out hsafe h
+    obtain ⟨ps, qs, hps, hqs, rfl⟩ := processF_cons_ok L l ls out h
+    simp only [SafeFileF, Bool.and_eq_true, Bool.or_eq_true, decide_eq_true_eq] at hsafe
+    have h1 := run_processLineF L hL st l ps hps hsafe.1
+    rw [run_append, h1, run_cons, ih _ qs hsafe.2 hqs]
+
+/-- **Same program, repaired code**: the side condition `SafeFileF` no longer excludes `==`/`=>` in directives
+(every break after `=` is proved to be a token boundary); it still excludes too-long statement/directive lines with
+trailing commentary (known finding) or trailing white space. -/
+theorem C18_fixed_same_program_partial (L : Nat) (hL : maxAffix < L) (ls out : List Line)
+    (hsafe : SafeFileF L St.init ls = true) (h : processF L ls = .ok out) : logical out = logical ls := by
+  rw [maxAffix_eq] at hL
+  unfold logical
+  rw [run_processF L hL ls St.init out hsafe h]
+
+/-- `!$omp parallel num_threads(n=` 16×`a` `==` 25×`b` `)` -/
+def witCompoundEq2 : Line :=
+  [33, 36, 111, 109, 112, 32, 112, 97, 114, 97, 108, 108, 101, 108, 32, 110, 117, 109, 95, 116, 104, 114, 101, 97, 100, 115, 40, 110, 61] ++ List.replicate 16 97 ++ [61, 61] ++ List.replicate 25 98 ++ [41]
+
+/-- the pinned code cuts this directive between the two `=` … -/
+theorem C18_compound_eq_counterexample2 :
+    (okVal (process 40 [witCompoundEq2])).map logical ≠ some (logical [witCompoundEq2]) := by decide +kernel
+/-- … the repaired code does not, and the text satisfies the (weaker) side condition `SafeFileF`. -/
+theorem C18_fixed_compound_eq_witness :
+    (okVal (processF 40 [witCompoundEq2])).map logical = some (logical [witCompoundEq2]) ∧
+    SafeFileF 40 St.init [witCompoundEq2] = true ∧ SafeFile 40 St.init [witCompoundEq2] = false := by decide +kernel
+
+/-- the old witness has no token boundary in the window: the repaired code refuses (directives are never cut
+inside a token) instead of emitting a broken directive -/
+theorem C18_fixed_compound_eq_refused : isInternal (processF 40 [witCompoundEq]) = true := by decide +kernel
+
+/-- the unbreakable statement of `C18_total_counterexample` is wrapped by the repaired code, within the limit and
+with the same logical lines -/
+theorem C18_fixed_unbreakable_witness :
+    (okVal (processF 40 [witUnbreakable])).map logical = some (logical [witUnbreakable]) ∧
+    (okVal (processF 40 [witUnbreakable])).map List.length = some 4 := by decide +kernel
+
+/-- blanks after the final `&`: repaired -/
+theorem C18_fixed_trailing_blank_witness :
+    (okVal (processF 40 witTrailingBlank)).map logical = some (logical witTrailingBlank) := by decide +kernel
+
+/-- `!$OMPPARALLELDO` (pinned by test_fail_to_wrap): "never fails" stays false for directives without a token
+boundary — known finding C18-unbreakable-raises, now restricted to directive lines -/
+theorem C18_fixed_total_counterexample :
+    isInternal (processF 14 [[33, 36, 79, 77, 80, 80, 65, 82, 65, 76, 76, 69, 76, 68, 79]]) = true := by decide +kernel
+
+/-- the trailing-comment defect is NOT repaired by the three patches (known finding stays) -/
+theorem C18_fixed_same_program_counterexample :
+    (okVal (processF 40 [witComment])).map logical ≠ some (logical [witComment]) := by decide +kernel
+
+example : SafeFileF 40 St.init witSafe = true := by decide +kernel
+example : (okVal (processF 40 witSafe)).map logical = some (logical witSafe) := by decide +kernel
+example : (okVal (processF 40 witSafe)).map List.length = some 9 := by decide +kernel
 
 end C18
